@@ -81,9 +81,9 @@ type world struct {
 	cs    []*deployed  // permission callers
 	csDef []callerSpec // their permission specs (same order)
 
-	candidate int // index of the registered candidate key (ck.Candidates)
-	nonce     uint32
+	nonce uint32
 
+	covErr     error // the hand-written system call table does not match the node's
 	goldenOnce sync.Once
 	goldenMap  map[string][][]any
 	sigOnce    sync.Once
@@ -182,7 +182,6 @@ func buildWorld() (*world, error) {
 	w := &world{b: b, bc: b.N.BC, byHash: map[util.Uint160]string{}, ids: map[int32]string{}, nonce: 1000}
 
 	// Governance background so that native methods have something to act on: a registered candidate, votes.
-	w.candidate = 0
 	if err := w.block([]ck.Action{
 		{Kind: "register", From: ck.NAccounts + 0, A: 0, Nonce: w.next(), S: "register"},
 	}); err != nil {
@@ -253,6 +252,7 @@ func buildWorld() (*world, error) {
 	if len(w.base) < 20 {
 		return nil, fmt.Errorf("baseline storage suspiciously small: %d items", len(w.base))
 	}
+	w.covErr = w.sysTableCoverage()
 	return w, nil
 }
 
@@ -311,7 +311,9 @@ type outcome struct {
 	Rewritten int            // storage items written with the value they already had
 	Notifs    []string       // "contract:event" in emission order
 	Invoc     map[string]int // contract invocation counters by contract name
+	Calls     int            // invocations of contracts other than the ones loaded / named by the harness
 	Foreign   []string       // contracts (other than the ones loaded by the harness) whose code executed instructions
+	Scripts   []string       // dynamic (non-contract) scripts that executed instructions (System.Runtime.LoadScript)
 	Stack     string         // result stack rendered
 	Gas       int64
 }
@@ -363,6 +365,10 @@ func (w *world) run(ic *interop.Context, own ...util.Uint160) *outcome {
 	for _, h := range own {
 		seen[h] = true
 	}
+	initial := map[util.Uint160]bool{}
+	for h := range seen {
+		initial[h] = true
+	}
 	ic.VM.SetOnExecHook(func(h util.Uint160, _ int, _ opcode.Opcode) {
 		if !seen[h] {
 			seen[h] = true
@@ -408,13 +414,16 @@ func (w *world) run(ic *interop.Context, own ...util.Uint160) *outcome {
 	for h, n := range ic.Invocations {
 		if n != 0 {
 			o.Invoc[w.name(h)] = n
+			if !initial[h] {
+				o.Calls += n
+			}
 		}
 	}
 	for _, h := range order {
 		if _, err := ic.GetContract(h); err == nil {
 			o.Foreign = append(o.Foreign, w.name(h))
 		} else {
-			o.Foreign = append(o.Foreign, "script:"+h.StringLE()[:8])
+			o.Scripts = append(o.Scripts, "script:"+h.StringLE()[:8])
 		}
 	}
 	if o.Halt {
